@@ -428,7 +428,7 @@ func main() {
 		},
 		Cases: func(tier string) int {
 			if tier == "thorough" {
-				return 60000
+				return 40000
 			}
 			return 3000
 		},
